@@ -225,8 +225,18 @@ def compare(interp, op, a, b):
     return r
 
 
-def _identity(a, b):
+def _identity(a, b, interp=None):
     """True/False/None for ``a is b``."""
+    if isinstance(a, ExtRef) and isinstance(b, K) or \
+            isinstance(b, ExtRef) and isinstance(a, K):
+        return False
+    if interp is not None:
+        da = isinstance(a, T) and (a in interp.distinct or a.op == 'tb')
+        db = isinstance(b, T) and (b in interp.distinct or b.op == 'tb')
+        if da and db:
+            return a == b
+        if (da and isinstance(b, K)) or (db and isinstance(a, K)):
+            return False
     if isinstance(a, K) and isinstance(b, K):
         if a.v is None or b.v is None or isinstance(a.v, bool) or \
                 isinstance(b.v, bool):
@@ -248,7 +258,7 @@ def _identity(a, b):
 
 def _compare(interp, sym, a, b):
     if sym == 'is':
-        r = _identity(a, b)
+        r = _identity(a, b, interp)
         if r is not None:
             return K(r)
         if isinstance(a, K) and not isinstance(b, K):
@@ -406,6 +416,11 @@ def subscript(interp, base, idx):
                 raise py_exc(interp, e)
         return T('sub', interp.termify(base), interp.termify(idx))
     if isinstance(base, DictV):
+        if isinstance(idx, (Obj, FuncRef, ClassRef)):
+            i = base.index(idx)
+            if i >= 0:
+                return base.vals[i]
+            raise AbsRaise(T('exc', 'KeyError', interp.termify(idx)))
         if isinstance(idx, (K, T, TupleV)):
             i = base.index(idx)
             if i >= 0:
@@ -665,6 +680,9 @@ _FOLD_MODULES = ('re', 'errno', 'os', 'stat', 'socket')
 def fold_ext_attr(mod, name):
     """Integer/str constants of a few stdlib modules are folded (these are
     not part of the analysed repository)."""
+    if mod == 'functools' and name == 'WRAPPER_ASSIGNMENTS':
+        import functools
+        return K(tuple(functools.WRAPPER_ASSIGNMENTS))
     if mod in _FOLD_MODULES:
         import importlib
         try:
@@ -1191,6 +1209,8 @@ def b_hasattr(interp, args, kwargs):
             return K(True)
         if obj.cls is not None and not obj.cls.ext_bases():
             return K(False)
+    if isinstance(obj, AbsFunc):
+        return K(False)
     if isinstance(obj, K):
         return K(hasattr(obj.v, name.v))
     if isinstance(obj, T) and interp.types.get(obj) == 'str':
@@ -1307,6 +1327,15 @@ def b_divmod(interp, args, kwargs):
     return TupleV([T('item', t, K(0)), T('item', t, K(1))])
 
 
+def b_exc_info(interp, args, kwargs):
+    exc = interp.current_exception()
+    if exc is None:
+        return TupleV([K(None), K(None), K(None)])
+    cls = interp.exc_class_of(exc)
+    return TupleV([cls if cls is not None else T('type', exc), exc,
+                   T('tb', interp.termify(exc))])
+
+
 def b_operator(sym):
     def f(interp, args, kwargs):
         if len(args) != 2:
@@ -1332,6 +1361,7 @@ BUILTINS = {
     'chr': b_pure('chr'), 'abs': b_pure('abs'), 'repr': b_pure('repr'),
     'math.ceil': b_math_ceil, 'pow': b_pow, 'map': b_map,
     'functools.reduce': b_reduce, 'divmod': b_divmod,
+    'sys.exc_info': b_exc_info,
     'operator.lt': b_operator('lt'), 'operator.le': b_operator('le'),
     'operator.eq': b_operator('eq'), 'operator.ne': b_operator('ne'),
     'operator.gt': b_operator('gt'), 'operator.ge': b_operator('ge'),
